@@ -1,0 +1,17 @@
+//go:build verif
+
+package promise
+
+// VerifHook, when set, is called at every schedule point of this package:
+//
+//	site 0: Promise.SetResult right after the winning swap, before the fields are written (obj: the *Promise)
+//	site 1: Once.Resolve before o.mtx is taken (obj: the *Once)
+//	site 2: Once callback goroutine after the callback returned an error, before o.mtx is taken (obj: the *Once)
+//	site 3: Once callback goroutine before the promise is resolved (obj: the *Once)
+var VerifHook func(site int, obj any)
+
+func verifPoint(site int, obj any) {
+	if h := VerifHook; h != nil {
+		h(site, obj)
+	}
+}
